@@ -8,6 +8,8 @@ import os
 import sys
 import traceback
 
+if hasattr(sys, 'set_int_max_str_digits'):
+    sys.set_int_max_str_digits(0)
 VERIF = os.path.dirname(os.path.abspath(__file__))
 sys.path.insert(0, VERIF)
 sys.path.insert(0, os.environ.get('VERIF_REPO', '/repo'))
